@@ -301,6 +301,12 @@ func (gb *gcpBalancer) UpdateClientConnState(ccs balancer.ClientConnState) error
 		scRef.subConn.UpdateAddresses(addrs)
 		scRef.subConn.Connect()
 	}
+	for sc := range gb.refreshingScRefs {
+		// Replacement connections of refreshes in flight must not take over
+		// with an outdated address list.
+		sc.UpdateAddresses(addrs)
+		sc.Connect()
+	}
 
 	return nil
 }
